@@ -42,8 +42,12 @@ Proof.
   destruct F as [[_ [-> _]]|[_ Hr]]; lia.
 Qed.
 
+(* where a token is recorded to stand: at the first byte of its text, or just after the
+   opening apostrophe or backtick *)
+Definition tok_pos (ty : tokType) (p : Z) : Z := match ty with tStringLiteral | tJSONLiteral => p + 1 | _ => p end.
+
 Definition lexedR (f : nat) (p : Z) (text rest : bytes) (w : Z) (acc : list token) (ty : tokType) (v : bytes) : Prop :=
-  exists tok p' k, ttype tok = ty /\ tvalue tok = v /\ p' = p + zlen text /\
+  exists tok p' k, ttype tok = ty /\ tvalue tok = v /\ tpos tok = tok_pos ty p /\ p' = p + zlen text /\
     tokenize_loopS (S f) (AS p (text ++ rest) w) acc = tokenize_loopS f (AS p' rest k) (tok :: acc).
 
 Ltac first_char c :=
@@ -61,7 +65,7 @@ Lemma lexR_any ty txt f p rest w acc : fixed_text ty = Some txt ->
 Proof.
   intros H Hty. unfold lexedR.
   destruct ty; cbn [fixed_text] in H; inversion H; subst txt; try contradiction;
-    (eexists _, _, _; split; [|split; [|split; [|reflexivity]]]; [reflexivity | reflexivity | unfold zlen; cbn [length str]; cbn; lia]).
+    (eexists _, _, _; split; [|split; [|split; [|split; [|reflexivity]]]]; [reflexivity | reflexivity | cbn; lia | unfold zlen; cbn [length str]; cbn; lia]).
 Qed.
 
 (* ---- the first character of a two-character operator, followed by something else ---- *)
@@ -83,7 +87,7 @@ Proof.
   intros Hf. unfold lexedR. first_char 124%N. cbn -[tokenize_loopS matchOrElseS].
   destruct (match_single 124 124 tOr tPipe p rest eq_refl) as [k Hk].
   { destruct rest; [exact I|]. cbn [follow_ok] in Hf. lia. }
-  change 124 with (Z.of_N 124). rewrite Hk. eexists _, _, _. split; [|split; [|split; [|reflexivity]]]; [reflexivity | reflexivity | unfold zlen; cbn; lia].
+  change 124 with (Z.of_N 124). rewrite Hk. eexists _, _, _. split; [|split; [|split; [|split; [|reflexivity]]]]; [reflexivity | reflexivity | cbn; lia | unfold zlen; cbn; lia].
 Qed.
 
 Lemma lexR_expref f p rest w acc : follow_ok tExpref rest = true -> lexedR f p [38%N] rest w acc tExpref [38%N].
@@ -91,7 +95,7 @@ Proof.
   intros Hf. unfold lexedR. first_char 38%N. cbn -[tokenize_loopS matchOrElseS].
   destruct (match_single 38 38 tAnd tExpref p rest eq_refl) as [k Hk].
   { destruct rest; [exact I|]. cbn [follow_ok] in Hf. lia. }
-  change 38 with (Z.of_N 38). rewrite Hk. eexists _, _, _. split; [|split; [|split; [|reflexivity]]]; [reflexivity | reflexivity | unfold zlen; cbn; lia].
+  change 38 with (Z.of_N 38). rewrite Hk. eexists _, _, _. split; [|split; [|split; [|split; [|reflexivity]]]]; [reflexivity | reflexivity | cbn; lia | unfold zlen; cbn; lia].
 Qed.
 
 Lemma lexR_not f p rest w acc : follow_ok tNot rest = true -> lexedR f p [33%N] rest w acc tNot [33%N].
@@ -99,7 +103,7 @@ Proof.
   intros Hf. unfold lexedR. first_char 33%N. cbn -[tokenize_loopS matchOrElseS].
   destruct (match_single 33 61 tNE tNot p rest eq_refl) as [k Hk].
   { destruct rest; [exact I|]. cbn [follow_ok] in Hf. lia. }
-  change 33 with (Z.of_N 33). change 61 with (Z.of_N 61). rewrite Hk. eexists _, _, _. split; [|split; [|split; [|reflexivity]]]; [reflexivity | reflexivity | unfold zlen; cbn; lia].
+  change 33 with (Z.of_N 33). change 61 with (Z.of_N 61). rewrite Hk. eexists _, _, _. split; [|split; [|split; [|split; [|reflexivity]]]]; [reflexivity | reflexivity | cbn; lia | unfold zlen; cbn; lia].
 Qed.
 
 Lemma lexR_lt f p rest w acc : follow_ok tLT rest = true -> lexedR f p [60%N] rest w acc tLT [60%N].
@@ -107,7 +111,7 @@ Proof.
   intros Hf. unfold lexedR. first_char 60%N. cbn -[tokenize_loopS matchOrElseS].
   destruct (match_single 60 61 tLTE tLT p rest eq_refl) as [k Hk].
   { destruct rest; [exact I|]. cbn [follow_ok] in Hf. lia. }
-  change 60 with (Z.of_N 60). change 61 with (Z.of_N 61). rewrite Hk. eexists _, _, _. split; [|split; [|split; [|reflexivity]]]; [reflexivity | reflexivity | unfold zlen; cbn; lia].
+  change 60 with (Z.of_N 60). change 61 with (Z.of_N 61). rewrite Hk. eexists _, _, _. split; [|split; [|split; [|split; [|reflexivity]]]]; [reflexivity | reflexivity | cbn; lia | unfold zlen; cbn; lia].
 Qed.
 
 Lemma lexR_gt f p rest w acc : follow_ok tGT rest = true -> lexedR f p [62%N] rest w acc tGT [62%N].
@@ -115,7 +119,7 @@ Proof.
   intros Hf. unfold lexedR. first_char 62%N. cbn -[tokenize_loopS matchOrElseS].
   destruct (match_single 62 61 tGTE tGT p rest eq_refl) as [k Hk].
   { destruct rest; [exact I|]. cbn [follow_ok] in Hf. lia. }
-  change 62 with (Z.of_N 62). change 61 with (Z.of_N 61). rewrite Hk. eexists _, _, _. split; [|split; [|split; [|reflexivity]]]; [reflexivity | reflexivity | unfold zlen; cbn; lia].
+  change 62 with (Z.of_N 62). change 61 with (Z.of_N 61). rewrite Hk. eexists _, _, _. split; [|split; [|split; [|split; [|reflexivity]]]]; [reflexivity | reflexivity | cbn; lia | unfold zlen; cbn; lia].
 Qed.
 
 Lemma lexR_lbracket f p rest w acc : follow_ok tLbracket rest = true -> lexedR f p [91%N] rest w acc tLbracket [91%N].
@@ -128,7 +132,7 @@ Proof.
       pose proof (step_neq b s 63 eq_refl ltac:(lia)) as N1. pose proof (step_neq b s 93 eq_refl ltac:(lia)) as N2.
       destruct (stepS (b :: s)) as [[r k] s']. change (Z.of_N 63) with 63 in N1. change (Z.of_N 93) with 93 in N2. rewrite N1, N2.
       eexists. cbn [snd]. repeat f_equal; lia. }
-  destruct Hk as [k Hk]. rewrite Hk. eexists _, _, _. split; [|split; [|split; [|reflexivity]]]; [reflexivity | reflexivity | unfold zlen; cbn; lia].
+  destruct Hk as [k Hk]. rewrite Hk. eexists _, _, _. split; [|split; [|split; [|split; [|reflexivity]]]]; [reflexivity | reflexivity | cbn; lia | unfold zlen; cbn; lia].
 Qed.
 
 Lemma lexR_fixed ty txt f p rest w acc : fixed_text ty = Some txt -> follow_ok ty rest = true -> lexedR f p txt rest w acc ty txt.
@@ -199,7 +203,7 @@ Proof.
     rewrite firstn_app_exact.
     replace (p + 1 + zlen ds) with (p + zlen (c :: ds)) by (unfold zlen; cbn [length]; lia).
     replace (p + zlen (c :: ds) - p) with (zlen (c :: ds)) by lia. reflexivity. }
-  eexists _, _, _. split; [|split; [|split; [reflexivity | exact Hloop]]]; reflexivity.
+  eexists _, _, _. split; [|split; [|split; [|split; [reflexivity | exact Hloop]]]]; try reflexivity; cbn [tpos tok_pos]; lia.
 Qed.
 
 Lemma lexR_number v f p rest w acc : follow_ok tNumber rest = true -> 0 <= p -> number_text v = true -> lexedR f p v rest w acc tNumber v.
@@ -212,7 +216,7 @@ Proof.
   intros Hfo Hp Hv.
   assert (Hst : stops rest). { destruct rest as [|b s]; [exact I|]. cbn [follow_ok] in Hfo. cbn [stops]. apply negb_true_iff in Hfo. exact Hfo. }
   destruct (lex_unquoted name rest f p w acc Hv Hst Hp) as [k Hk].
-  eexists _, _, k. split; [|split; [|split; [reflexivity | exact Hk]]]; reflexivity.
+  eexists _, _, k. split; [|split; [|split; [|split; [reflexivity | exact Hk]]]]; try reflexivity; cbn [tpos tok_pos]; lia.
 Qed.
 
 Lemma lexR_quoted rs f p rest w acc : 0 <= p -> forallb valid_rune rs = true ->
@@ -230,7 +234,7 @@ Proof.
     replace (p + 1 - 1) with p by lia.
     replace (p + 1 + zlen (json_escape rs) + 1) with (p + zlen (34%N :: json_escape rs ++ [34%N])) by (unfold zlen; cbn [length]; rewrite app_length; cbn [length]; lia).
     reflexivity. }
-  eexists _, _, _. split; [|split; [|split; [reflexivity | exact Hloop]]]; reflexivity.
+  eexists _, _, _. split; [|split; [|split; [|split; [reflexivity | exact Hloop]]]]; try reflexivity; cbn [tpos tok_pos]; lia.
 Qed.
 
 Lemma lexR_raw x f p rest w acc : 0 <= p -> raw_ok x = true ->
@@ -247,7 +251,7 @@ Proof.
     replace (p + 1 + zlen (raw_escape x ++ 39%N :: rest) - zlen rest) with (p + zlen (39%N :: raw_escape x ++ [39%N]))
       by (unfold zlen; cbn [length]; rewrite !app_length; cbn [length]; lia).
     reflexivity. }
-  eexists _, _, _. split; [|split; [|split; [reflexivity | exact Hloop]]]; reflexivity.
+  eexists _, _, _. split; [|split; [|split; [|split; [reflexivity | exact Hloop]]]]; try reflexivity; cbn [tpos tok_pos]; lia.
 Qed.
 
 Lemma lexR_literal t f p rest w acc : 0 <= p -> paired t = true ->
@@ -264,7 +268,7 @@ Proof.
     cbn [bind ap]. rewrite lit_unescape.
     replace (p + 1 + zlen (lit_escape t) + 1) with (p + zlen (96%N :: lit_escape t ++ [96%N])) by (unfold zlen; cbn [length]; rewrite app_length; cbn [length]; lia).
     reflexivity. }
-  eexists _, _, _. split; [|split; [|split; [reflexivity | exact Hloop]]]; reflexivity.
+  eexists _, _, _. split; [|split; [|split; [|split; [reflexivity | exact Hloop]]]]; try reflexivity; cbn [tpos tok_pos]; lia.
 Qed.
 
 (* ---- any token, followed by anything that cannot extend it ---- *)
@@ -310,7 +314,7 @@ Proof.
     assert (Hfuel : exists f', f = S (length ws + f') /\ (steps l < f')%nat).
     { exists (f - S (length ws))%nat. split; lia. }
     destruct Hfuel as [f' [-> Hf']].
-    destruct (lexR_token t (length ws + f') p (ws ++ text_ws l) w acc Hfo Hp Ht) as [tok [p' [k [T1 [T2 [Hp' Hloop]]]]]].
+    destruct (lexR_token t (length ws + f') p (ws ++ text_ws l) w acc Hfo Hp Ht) as [tok [p' [k [T1 [T2 [T3 [Hp' Hloop]]]]]]].
     rewrite Hloop.
     destruct (lex_ws_run0 ws f' p' (text_ws l) k (tok :: acc) Hws) as [k' Hrun]. rewrite Hrun.
     destruct (IH f' (p' + zlen ws) k' (tok :: acc) Hl'
